@@ -366,10 +366,11 @@ def check_held(recipe) -> list[Fail]:
         if res["exc"]:
             raise HarnessError(f"setup session failed: {res}")
         h = helper(hn)
-        if h.call({"op": "new", "path": path, "handles": {hn: {"ro": False, "buf": -1}}}) is None:
+        if h.call({"op": "new", "path": path, "handles": {hn: {"ro": False, "buf": -1}, "idle": {"ro": True, "buf": -1, "plain": True}}}) is None:
             raise HarnessError("helper stalled while constructing a handle")
         held_mode = recipe["held"]
-        h.send({"op": "session_hold", "h": hn, "mode": held_mode, "key": "heldkey", "val": (b"H" * 33).hex(), "at_file": at_file, "gate_file": gate_file})
+        h.send({"op": "session_hold", "h": hn, "mode": held_mode, "key": "heldkey", "val": (b"H" * 33).hex(), "at_file": at_file, "gate_file": gate_file,
+                "during": recipe.get("during"), "idle": "idle"})
         t0 = time.time()
         while not os.path.exists(at_file) and time.time() - t0 < 30:
             time.sleep(0.01)
@@ -510,9 +511,12 @@ def enum_held(tier, shard, nshards):
             for timeouts in ([0], [1], [2], [0, 1, 2], [3]):
                 if tier == "quick" and timeouts == [3] and abuf:
                     continue
-                if i % nshards == shard:
-                    yield {"held": held, "abuf": abuf, "timeouts": timeouts}
-                i += 1
+                for during in (None, "unpickle", "deepcopy"):
+                    if during and timeouts != [0, 1, 2]:
+                        continue
+                    if i % nshards == shard:
+                        yield {"held": held, "abuf": abuf, "timeouts": timeouts, "during": during}
+                    i += 1
 
 
 def enum_ctor(tier, shard, nshards):
@@ -684,8 +688,8 @@ LEGS = [
         rule="a Collection handle that went through 0-2 reading / writing sessions is pickled and unpickled; the copy must see every record (also one written by another handle in between), refuse a duplicate, append; all 96 combinations",
     ),
     Leg(
-        "held", check_held, lambda r: (True, [f"holder={'writer' if r['held'] == 'w' else 'reader'}", "timeouts=" + ",".join(str([0, 0.0, 0.05, 0.3][t]) for t in r["timeouts"])]), enumerate=enum_held, exhaustive=True, shards={"quick": 8, "thorough": 8},
-        rule="harness-owned overlap: a helper process sits inside a writing (or reading) session while this process asks for sessions with timeout 0, 0.0, 0.05, 0.3: every request that the holder excludes must end in TimeoutError, never inside the session; "
+        "held", check_held, lambda r: (True, [f"holder={'writer' if r['held'] == 'w' else 'reader'}", "timeouts=" + ",".join(str([0, 0.0, 0.05, 0.3][t]) for t in r["timeouts"]), f"holder_copies_an_idle_handle_inside_its_session={r.get('during')}"]), enumerate=enum_held, exhaustive=True, shards={"quick": 8, "thorough": 8},
+        rule="harness-owned overlap: a helper process sits inside a writing (or reading) session while this process asks for sessions with timeout 0, 0.0, 0.05, 0.3: every request that the holder excludes must end in TimeoutError, never inside the session - also when the holder, inside its session, unpickles / deep-copies an idle handle of the same library (no session on the copy); "
              "after the gate opens a session proceeds and the contents are complete",
     ),
     Leg(
